@@ -144,3 +144,77 @@ Proof.
   destruct (leave_assign_enum _ _ _ _ Hs1) as [st2 [Hl [Hk _]]]. exists nss, st2. split; [exact F|]. split; [exact Hl|].
   now rewrite inst_of_mk in Hk.
 Qed.
+
+(* non-vacuity: the statement `GREEN = BLUE, TEAL = ...` in the body of an enum that already lists RED *)
+Example enum_statement_example : forall d node1 node2 node3,
+  let e := {| e_id := K"pkg/m/Color"; e_name := K"Color"; e_doc := {| d_desc := []; d_full := []; d_examples := [] |};
+              e_instances := [(K"pkg/m/Color/RED", K"RED")] |} in
+  let md := {| m_id := K"pkg/m"; m_name := K"m"; m_doc := []; m_qimports := []; m_wimports := []; m_classes := [];
+               m_functions := []; m_enums := [] |} in
+  let st := set_stack init_vstate [FEnum e; FModule md] in
+  exists st1 w st2,
+    enter_assign [] d st [EName (K"GREEN") [] node1; ETuple [EName (K"BLUE") [] node2; EName (K"TEAL") [] node3]] None = Ok (st1, w) /\
+    leave_assign st1 = Ok st2 /\
+    match vs_stack st2 with
+    | FEnum e' :: _ => e_instances e' = [(K"pkg/m/Color/RED", K"RED"); (K"pkg/m/Color/GREEN", K"GREEN");
+                                         (K"pkg/m/Color/BLUE", K"BLUE"); (K"pkg/m/Color/TEAL", K"TEAL")]
+    | _ => False
+    end.
+Proof. intros. eexists _, _, _. split; [vm_compute; reflexivity|]. split; vm_compute; reflexivity. Qed.
+
+(* ---- analyzer: the whole body of an enum ---- *)
+Inductive member_names : cmember -> list str -> Prop :=
+| MN lvs ut nss : Forall2 (fun lv ns => lv_names lv = Ok ns) lvs nss -> member_names (CMAssign lvs ut) (List.concat nss).
+
+Definition inst_pairs (e : enum_) (ns : list str) : list (str * str) := map (fun n => (e_id e ++ K"/" ++ n, n)) ns.
+
+Lemma enum_add_instances_twice e l1 l2 : enum_add_instances (enum_add_instances e l1) l2 = enum_add_instances e (l1 ++ l2).
+Proof. unfold enum_add_instances; cbn. now rewrite <- app_assoc. Qed.
+
+Section EnumBody.
+  Variables (al : aliases) (d : docs) (pref_doc warn : bool).
+
+  Lemma enum_body : forall defs s1 w1 s2 w2 e below,
+    (fix go (cur : vstate * W) (ms : list cmember) : res (vstate * W) :=
+       match ms with
+       | [] => Ok cur
+       | x :: r => if enum_child x && negb (is_placeholder x)
+                   then do s' <- walk_member al d pref_doc warn (fst cur) x; go (fst s', wapp (snd cur) (snd s')) r else go cur r
+       end) (s1, w1) defs = Ok (s2, w2) ->
+    vs_stack s1 = FEnum e :: below ->
+    exists nss, Forall2 member_names (filter (fun x => enum_child x && negb (is_placeholder x)) defs) nss /\
+      vs_stack s2 = FEnum (enum_add_instances e (inst_pairs e (List.concat nss))) :: below.
+  Proof.
+    induction defs as [|x r IH]; intros s1 w1 s2 w2 e below HF S1; cbn [filter].
+    - inversion HF; subst. exists []. split; [constructor|]. cbn. now rewrite enum_add_instances_nil.
+    - destruct (enum_child x && negb (is_placeholder x)) eqn:EW; [|eapply IH; eauto].
+      destruct x as [lvs ut|f|f|n p i t|c|c n]; cbn in EW; try discriminate.
+      cbn [fst snd] in HF.
+      change (walk_member al d pref_doc warn s1 (CMAssign lvs ut))
+        with (do x <- enter_assign al d s1 lvs ut; do y <- leave_assign (fst x); Ok (y, snd x)) in HF.
+      destruct (enter_assign al d s1 lvs ut) as [[sa wa]|] eqn:EA; [|discriminate].
+      destruct (enum_assignment_statement _ _ _ _ _ _ _ _ _ EA S1) as [nss0 [st2 [F [HL HK]]]].
+      cbn [bind fst snd] in HF. rewrite HL in HF. cbn [bind fst snd] in HF.
+      destruct (IH _ _ _ _ _ _ HF HK) as [nss [F2 S3]].
+      exists (List.concat nss0 :: nss). split; [constructor; [now constructor|exact F2]|].
+      rewrite S3. rewrite enum_add_instances_twice. unfold inst_pairs. cbn [List.concat e_id enum_add_instances]. now rewrite map_app.
+  Qed.
+
+  (* for every enum definition at module level and every state of the walk: the module gains exactly one enum record, named
+     like the class, whose instances are the names assigned by the assignment statements of the body - statements in source
+     order, the targets of a statement left to right, tuple targets flattened - each once, under <enum id>/<name>;
+     methods, properties and nested classes of the body contribute nothing (fix 5e57c43) *)
+  Theorem enum_inventory : forall c st st' w m r,
+    walk_member al d pref_doc warn st (CMClass c) = Ok (st', w) -> is_enum_def c = true -> vs_stack st = FModule m :: r ->
+    exists e nss, vs_stack st' = FModule (mod_add_enum m e) :: r /\ e_name e = cd_name c /\ e_id e = id_from_stack st (cd_name c) /\
+      Forall2 member_names (filter (fun x => enum_child x && negb (is_placeholder x)) (cd_defs c)) nss /\
+      e_instances e = inst_pairs e (List.concat nss).
+  Proof.
+    intros c st st' w m r H He Hs. cbn [walk_member] in H. rewrite He in H.
+    unfold enter_enum in H. destruct (doc_class d (cd_fullname c)) as [doc|] eqn:ED; [|discriminate]. cbn [bind fst snd] in H.
+    match type of H with bind ?X _ = _ => destruct X as [[s2 w2]|] eqn:EG end; [|discriminate].
+    eapply enum_body in EG; [|cbn; rewrite Hs; reflexivity]. destruct EG as [nss [F S2]].
+    cbn [bind fst snd] in H. unfold leave_enum in H. rewrite S2 in H. inversion H; subst. cbn [vs_stack].
+    eexists _, nss. split; [reflexivity|]. cbn. repeat split; auto.
+  Qed.
+End EnumBody.
